@@ -69,6 +69,32 @@ fn make_standoff(store: &mut AnnotationStore, what: &str) {
     }
 }
 
+/// One level of sub-stores: a new sub-store takes all resources, all datasets and the first half of the annotations
+/// (which can only refer to items in that half); the rest stays in the main store.
+fn make_substore(store: &mut AnnotationStore) -> Result<(), StamError> {
+    if store.substores_len() > 0 {
+        return Ok(());
+    }
+    let sub = store.add_new_substore("sub", "sub.store.stam.json")?;
+    for i in 0..store.resources_len() {
+        let h = TextResourceHandle::new(i);
+        if store.resource(h).is_some() {
+            <AnnotationStore as AssociateSubStore<TextResource>>::associate_substore(store, h, sub)?;
+        }
+    }
+    for i in 0..store.datasets_len() {
+        let h = AnnotationDataSetHandle::new(i);
+        if store.dataset(h).is_some() {
+            <AnnotationStore as AssociateSubStore<AnnotationDataSet>>::associate_substore(store, h, sub)?;
+        }
+    }
+    let live: Vec<AnnotationHandle> = store.annotations().map(|a| a.handle()).collect();
+    for h in live.iter().take((live.len() + 1) / 2) {
+        <AnnotationStore as AssociateSubStore<Annotation>>::associate_substore(store, *h, sub)?;
+    }
+    Ok(())
+}
+
 /// All round trips of one behaviour use one directory and one file name: stand-off files that did not change are
 /// (by design) not rewritten, so they must stay where they are for the next load.
 fn behaviour_dir(ctx: &mut Ctx) -> PathBuf {
@@ -100,12 +126,14 @@ pub fn roundtrip(ctx: &mut Ctx, a: &Value) -> (String, i64) {
                     other => panic!("harness: unknown format {}", other),
                 };
                 let d1 = behaviour_dir(ctx);
-                if fmt == "json" && lay != "file" {
-                    make_standoff(&mut ctx.store, lay);
-                }
                 let path = d1.join(name);
                 let path = path.to_str().unwrap().to_string();
                 ctx.store.set_filename(&path);
+                if fmt == "json" && lay == "substore" {
+                    make_substore(&mut ctx.store)?;
+                } else if fmt == "json" && lay != "file" {
+                    make_standoff(&mut ctx.store, lay);
+                }
                 ctx.store.save()?;
                 let dg1 = digest_dir(&d1);
                 let loaded = AnnotationStore::from_file(&path, crate::store_config().0)?;
